@@ -5,6 +5,7 @@ package main
 
 import (
 	"fmt"
+	"os"
 	"go/types"
 	"net"
 	"strings"
@@ -719,43 +720,95 @@ type ufApp struct{ in, out *Term }
 func (ex *Exec) ufBytes(st *State, args []Value, injective bool) Value {
 	name := ex.argString(st, args[0])
 	n := ex.argInt(args[1])
-	var in *Term
+	// Each byte-string argument contributes its bytes. The function symbol is indexed by the total input width, so an
+	// argument whose length is symbolic is case-split over the constants its length can take (same symbol and encoding as
+	// a constant-length argument of that length); only when the length is not of that shape are the bytes beyond it masked
+	// to zero and the length itself appended (a distinct symbol: such an application is unrelated to the others).
+	type opt struct {
+		c  *Term
+		bs []*Term
+	}
+	var per [][]opt
+	total := 1
 	for _, a := range ex.elems(st, args[2].(*SliceV)) {
 		s := a.(*SliceV)
-		add := func(b *Term) {
-			if in == nil {
-				in = b
-			} else {
-				in = Concat(in, b)
+		bs := ex.byteTerms(st, s)
+		var os_ []opt
+		if s.Len.IsConst() {
+			os_ = []opt{{True, bs}}
+		} else if c, ok := ex.uniqueConst(st, s.Len); ok && int(c.ConstU()) <= len(bs) {
+			os_ = []opt{{True, bs[:c.ConstU()]}}
+		} else if cs := constCands(s.Len, map[*Term][]*Term{}, 0); cs != nil && total*len(cs) <= 8 {
+			for _, c := range cs {
+				if int(c.ConstU()) <= len(bs) {
+					os_ = append(os_, opt{Eq(s.Len, c), bs[:c.ConstU()]})
+				}
 			}
 		}
-		if !s.Len.IsConst() {
-			// symbolic length: bytes beyond the length are masked to zero and the length itself is an argument
-			for i, b := range ex.byteTerms(st, s) {
-				add(Ite(Ult(i64(int64(i)), s.Len), b, BV(8, 0)))
+		if os_ == nil {
+			if os.Getenv("VS_DEBUG_UF") != "" {
+				fmt.Fprintf(os.Stderr, "UF %s symbolic len: %s\n", name, s.Len.String())
 			}
-			add(Extract(15, 0, s.Len))
-			continue
+			var m []*Term
+			for i, b := range bs {
+				m = append(m, Ite(Ult(i64(int64(i)), s.Len), b, BV(8, 0)))
+			}
+			l := Extract(15, 0, s.Len)
+			m = append(m, Extract(15, 8, l), Extract(7, 0, l))
+			os_ = []opt{{True, m}}
 		}
-		for _, b := range ex.byteTerms(st, s) {
-			add(b)
-		}
+		total *= len(os_)
+		per = append(per, os_)
 	}
-	if in == nil {
-		in = BV(8, 0)
-	}
-	full := fmt.Sprintf("%s/%d", name, in.W)
-	out := UF(full, 8*n, in)
-	if injective {
-		if ex.ufApps == nil {
-			ex.ufApps = map[string][]ufApp{}
-		}
-		for _, p := range ex.ufApps[full] {
-			if p.in != in {
-				st.assume(Or(Eq(p.in, in), Not(Eq(p.out, out))))
+	var out *Term
+	idx := make([]int, len(per))
+	for {
+		var in *Term
+		cond := True
+		for i := range per {
+			o := per[i][idx[i]]
+			cond = And(cond, o.c)
+			for _, b := range o.bs {
+				if in == nil {
+					in = b
+				} else {
+					in = Concat(in, b)
+				}
 			}
 		}
-		ex.ufApps[full] = append(ex.ufApps[full], ufApp{in, out})
+		if in == nil {
+			in = BV(8, 0)
+		}
+		full := fmt.Sprintf("%s/%d", name, in.W)
+		o := UF(full, 8*n, in)
+		if injective {
+			if ex.ufApps == nil {
+				ex.ufApps = map[string][]ufApp{}
+			}
+			for _, p := range ex.ufApps[full] {
+				if p.in != in {
+					st.assume(Or(Eq(p.in, in), Not(Eq(p.out, o))))
+				}
+			}
+			ex.ufApps[full] = append(ex.ufApps[full], ufApp{in, o})
+		}
+		if out == nil {
+			out = o
+		} else {
+			out = Ite(cond, o, out)
+		}
+		k := 0
+		for k < len(idx) {
+			idx[k]++
+			if idx[k] < len(per[k]) {
+				break
+			}
+			idx[k] = 0
+			k++
+		}
+		if k == len(idx) {
+			break
+		}
 	}
 	es := make([]Value, n)
 	for i := 0; i < n; i++ {
